@@ -82,15 +82,15 @@ func buildChain(r *lib.Rng, z *zoo) (*object, error) {
 		return schema.StreamReaderFromArray([]string{"odd(", in, ")"}), nil
 	}), compose.WithNodeKey("odd"))
 	ch.AppendBranch(br)
-	ch.AppendPassthrough()
+	ch.AppendPassthrough(compose.WithNodeKey("pt"))
 	ch.AppendLambda(compose.InvokableLambdaWithOption(z.strNode("z")), compose.WithNodeKey("z"))
 	run, err := ch.Compile(context.Background(), compose.WithGraphName("chain"))
 	if err != nil {
 		return nil, err
 	}
 	shared := []compose.Option{
-		compose.WithLambdaOption(lopt{Val: "S"}).DesignateNode(pk[0], "z"),
-		compose.WithCallbacks(sharedHandler("sd")).DesignateNode(pk[1]),
+		sharedLopt("S").DesignateNode(pk[0], "z"),
+		sharedCb("sd").DesignateNode(pk[1]),
 	}
 	d := &dGraph{}
 	d.node("t", fn1("FStrT", "t"), -1)
@@ -259,9 +259,9 @@ func buildState(r *lib.Rng, z *zoo) (*object, error) {
 		return nil, err
 	}
 	shared := []compose.Option{
-		compose.WithLambdaOption(lopt{Val: "S"}).DesignateNode("a"),
-		compose.WithCallbacks(sharedHandler("so")),
-		compose.WithCallbacks(sharedHandler("sd")).DesignateNode(par[0]),
+		sharedLopt("S").DesignateNode("a"),
+		sharedCb("so"),
+		sharedCb("sd").DesignateNode(par[0]),
 	}
 	d := &dGraph{dag: dag, state: true}
 	d.node("a", fn1("FV", "a"), 0, "pre="+fn1("HPreSt", "a"), "post="+fn1("HPostSt", "a"))
@@ -399,12 +399,12 @@ func buildNested(r *lib.Rng, z *zoo) (*object, error) {
 		return nil, err
 	}
 	shared := []compose.Option{
-		compose.WithLambdaOption(lopt{Val: "S"}).DesignateNodeWithPath(compose.NewNodePath("sub", "y"), compose.NewNodePath("sub2", "y")),
-		compose.WithCallbacks(sharedHandler("sp")).DesignateNodeWithPath(compose.NewNodePath("sub2", "yf")),
-		compose.WithCallbacks(sharedHandler("so")),
+		sharedLopt("S").DesignateNodeWithPath(compose.NewNodePath("sub", "y"), compose.NewNodePath("sub2", "y")),
+		sharedCb("sp").DesignateNodeWithPath(compose.NewNodePath("sub2", "yf")),
+		sharedCb("so"),
 	}
 	if depth3 {
-		shared = append(shared, compose.WithLambdaOption(lopt{Val: "S3"}).DesignateNodeWithPath(compose.NewNodePath("sub", "inner", "x0")))
+		shared = append(shared, sharedLopt("S3").DesignateNodeWithPath(compose.NewNodePath("sub", "inner", "x0")))
 	}
 	dInner := &dGraph{dag: true}
 	for _, k := range []string{"x0", "x1"} {
